@@ -268,23 +268,28 @@ impl Report {
                 ),
             )
             .set("disagreement_count", J::Int(self.disagreements.len() as i64))
-            .set(
-                "oracle_failures",
-                J::Arr(
-                    self.oracle_failures
-                        .iter()
-                        .take(200)
-                        .map(|(i, key, msg, op)| {
-                            let mut d = J::obj();
-                            d.set("case", J::Int(*i as i64))
-                                .set("key", J::s(key))
-                                .set("message", J::s(msg))
-                                .set("op", J::s(op));
-                            d
-                        })
-                        .collect(),
-                ),
-            )
+            .set("oracle_failures", {
+                // at most 25 per key, so that every kind of failure is represented
+                let mut per: BTreeMap<String, usize> = BTreeMap::new();
+                let mut out = vec![];
+                for (i, key, msg, op) in self.oracle_failures.iter() {
+                    let n = per.entry(key.clone()).or_insert(0);
+                    *n += 1;
+                    if *n > 25 { continue; }
+                    let mut d = J::obj();
+                    d.set("case", J::Int(*i as i64)).set("key", J::s(key)).set("message", J::s(msg)).set("op", J::s(op));
+                    out.push(d);
+                }
+                J::Arr(out)
+            })
+            .set("oracle_failure_keys", {
+                let mut per: BTreeMap<String, J> = BTreeMap::new();
+                for (_, key, _, _) in self.oracle_failures.iter() {
+                    let e = per.entry(key.clone()).or_insert(J::Int(0));
+                    if let J::Int(n) = e { *n += 1; }
+                }
+                J::Obj(per)
+            })
             .set("oracle_failure_count", J::Int(self.oracle_failures.len() as i64));
         for (k, v) in &self.extra {
             j.set(k, v.clone());
